@@ -39,6 +39,7 @@ type Op struct {
 	A int    `json:"a"`           // acting agent: index into the universe
 	B int    `json:"b,omitempty"` // connect/disconnect: named agent (index), -1 = an id the teamserver has never seen
 	F bool   `json:"f,omitempty"` // disconnect only: the Demon reports Removed = FALSE
+	R bool   `json:"r,omitempty"` // disconnect only: if the actor has children, B picks one of them (B mod #children, in universe order)
 }
 
 type Case struct {
@@ -338,6 +339,28 @@ func checkCase(c Case) *core.Violation {
 		if op.K != "reg" && actor == nil {
 			continue // an agent the teamserver does not know cannot deliver a callback; the operator cannot mark it
 		}
+		if op.K == "disconnect" && op.R {
+			var kids []int
+			for i := 0; i <= len(c.IDs); i++ {
+				x := int64(unknownID)
+				if i < len(c.IDs) {
+					x = int64(c.IDs[i])
+				}
+				if p, ok := pre.parentOf[x]; ok && p == int64(actorID) {
+					kids = append(kids, i)
+				}
+			}
+			if len(kids) > 0 {
+				b := op.B
+				if b < 0 {
+					b = -b
+				}
+				op.B = kids[b%len(kids)]
+				if op.B == len(c.IDs) {
+					op.B = -1
+				}
+			}
+		}
 		class := classOf(op, c, pre)
 		namedID := int64(-1)
 		if op.K == "connect" || op.K == "disconnect" {
@@ -462,6 +485,8 @@ func checkCase(c Case) *core.Violation {
 	return nil
 }
 
+func guard(c Case) *core.Violation { return core.Guard(func() *core.Violation { return checkCase(c) }) }
+
 // ---------------------------------------------------------------- ideal model (classification only)
 
 type model struct {
@@ -522,6 +547,20 @@ func summarize(c Case) summary {
 		}
 		s.effective++
 		b := op.B
+		if op.K == "disconnect" && op.R {
+			var kids []int
+			for i := 0; i <= len(c.IDs); i++ {
+				if p, ok := m.parent[i]; ok && p == op.A {
+					kids = append(kids, i)
+				}
+			}
+			if len(kids) > 0 {
+				if b < 0 {
+					b = -b
+				}
+				b = kids[b%len(kids)]
+			}
+		}
 		if b < 0 || b >= len(c.IDs) {
 			b = len(c.IDs) // the extra agent with id unknownID
 		}
